@@ -59,7 +59,7 @@ class C15(Spec):
                 "K 1 1 600 q a", "K 1 1 600 Q a", "K 1 1 600 q,Q,a,q,Q,a q,Q", "K 2 2 600 Q,q,Q,q,a,d -",
                 "K 1 1 5000 " + ",".join(["T@20,a@0"] * 12) + " -", "K 1 1 5000 " + ",".join(["T@20,a@5000"] * 12) + " -",
                 "K 2 2 5000 " + ",".join(["T@25,a@0,a@3000"] * 8) + " -",
-                "L 1 4000", "L 2 3000"]
+                "L 1 4000", "L 2 3000", "C 1 500", "C 2 300", "C 1 0"]
 
     def gen(self, rng, tier):
         cases = list(self.corpus())
@@ -100,6 +100,11 @@ class C15(Spec):
             return "client harness %s on %s (the client stopped making progress)" % (impl, case)
         t = case.split()
         f = dict(x.split("=") for x in impl.split()[1:])
+        if t[0] == "C":
+            if impl != "C refused=R live=F":
+                return ("a request to a port nobody listens on, then one to a live server through the same client: %s (expected the first "
+                        "rejected, the second fulfilled) (%s)" % (impl, case))
+            return None
         if t[0] == "L":
             if f["stuck"] != "0":
                 return ("a request issued while the only connection was being released was never settled although the server answers "
@@ -136,7 +141,7 @@ class C15(Spec):
 
     def nontrivial(self, case, impl):
         t = case.split()
-        if t[0] == "L":
+        if t[0] in "LC":
             return True
         return any(b in t[4] for b in "nlhH") or len(t[4].split(",")) > int(t[2])
 
@@ -144,6 +149,8 @@ class C15(Spec):
         t = case.split()
         if t[0] == "L":
             return "queued-as-released"
+        if t[0] == "C":
+            return "connection-refused"
         if "T" in t[4]:
             return "response-at-time-out"
         if any(b in t[4] for b in "xX") and len(t[4].split(",")) > int(t[2]):
